@@ -260,6 +260,8 @@ def tlc(module, cfg=None, workers=1, env=None, heap="2g", timeout=1800, extra=No
     d = cwd or spec_copy()
     meta = tempfile.mkdtemp(prefix="meta-", dir=scratch())
     java = ["java", "-XX:+UseParallelGC", "-Xmx" + heap]
+    if workers == 1:
+        java.append("-XX:ParallelGCThreads=2")
     if stack:
         java.append("-Xss" + stack)
     if deque:
